@@ -31,6 +31,17 @@ the key blanked), the final file carries skeletons / total_params / max_height,m
 crop_hw (centered-instance) / wandb run_id (tracking on); ``best.ckpt`` (and ``last.ckpt``,
 ``save_last=True``) exist iff ``save_ckpt``; ``train_chunks``/``val_chunks`` are gone iff
 deletion was requested; the configuration embedded in every checkpoint has a blank key.
+
+Parts `chunk-reuse` / `chunk-reuse-sampled` - histories of 2-3 runs over ONE directory tree: run 1 trains with
+``torch_dataset_np_chunks`` and keeps its chunks (``delete_chunks_after_training=False``, ``np_chunks_path``
+None or a separate directory); run 2 trains with ``use_existing_chunks=True`` on those chunks with deletion
+requested or not (its own key, possibly different from run 1's: neither key may appear anywhere); an optional
+run 3 re-uses chunks that survived run 2 and requests their deletion.  Every write boundary of every run is a
+crash snapshot over all shared directories.  Judged per run: completes; chunk files gone iff that run asked
+for deletion (and unchanged - same size/mtime/inode, never opened for writing - while re-used); the key
+clause; initial/final config and checkpoints-iff-save_ckpt of the run (only checkpoints written by the run
+itself count in a shared directory).  History class "explicit" spells out crop_hw / part_names / edges in the
+configuration (as the repo's own reuse test does), class "defaults" leaves them to the trainer.
 """
 
 import hashlib
@@ -60,7 +71,11 @@ RULE = (
     "output directories) at EVERY file-write boundary, then once per kill point with an exception injected "
     "at that boundary; thorough tier enumerates all 192 configurations x all boundaries x 2 kill flavours; "
     "non-trivial = key non-empty and at least one of {structured config, tracking on, np_chunks}; "
-    "one oracle evaluation = one snapshot (or final) scan / one artifact clause group"
+    "one oracle evaluation = one snapshot (or final) scan / one artifact clause group; "
+    "chunk-reuse parts: case = history (run 1 creates+keeps np chunks; run 2 use_existing_chunks=True with delete in "
+    "{T,F}; optional run 3 re-uses again and deletes) x model type x np_chunks_path {None, separate} x form x "
+    "use_wandb x save_ckpt x {explicit, defaults} drawn jointly, two keys (same or different); thorough enumerates all "
+    "model x npp x delete x form x class histories with a kill at every boundary inside run 2's Trainer.fit"
 )
 ASSUMPTIONS = [
     "wandb runs in offline mode only (no network in the sandbox): wandb_mode='offline', so wandb.login(key) "
@@ -80,6 +95,10 @@ ASSUMPTIONS = [
     "the file may contain extra keys with value None that the supplied plain config lacks (schema defaults "
     "merged in by verify_training_cfg); all supplied keys must be present with equal values",
     "kill runs judge only the key clause (a dying process has no artifact contract)",
+    "chunk-reuse histories: a re-using run never opens the labels file, so skeletons / max_height,max_width / "
+    "crop_hw of its final config are recorded as class labels (reuse:final-config-without-*) and not judged; in a "
+    "directory shared by several runs (np_chunks_path=None) run 1 writes no checkpoint and only checkpoints written "
+    "by the judged run itself count for the checkpoint clause",
     "ModelTrainer is driven directly (as sleap_nn.train.run_training does in its first two lines); the "
     "post-training predict/evaluate part of run_training depends on the sleap-io version shim and belongs to C02",
 ]
@@ -143,8 +162,9 @@ class _Monitor:
         self.roots = [os.path.abspath(r) for r in roots]
         self.prefixes = tuple(r + os.sep for r in self.roots)
         self.base = base
-        self.key = key
-        self.needles = [key.encode("utf-8"), key.encode("utf-16-le"), key.encode("utf-32-le")] if key else []
+        keys = [key] if isinstance(key, str) else list(key)
+        self.key = keys[0] if keys else ""
+        self.needles = [k.encode(enc) for k in keys if k for enc in ("utf-8", "utf-16-le", "utf-32-le")]
         self.kill = kill  # None | (k, "base"|"kbd")
         self.killed_at = None
         self.n = 0
@@ -337,6 +357,7 @@ def _labels_facts(path):
     facts = {
         "nodes": [n.name for n in lb.skeletons[0].nodes],
         "hw": (int(lb.video.shape[1]), int(lb.video.shape[2])),
+        "edges": [(e.source.name, e.destination.name) for e in lb.skeletons[0].edges],
         "max_extent": ext,
     }
     _ASSETS.setdefault("facts", {})[path] = facts
@@ -358,6 +379,21 @@ HEADS = {
 }
 MIN_CROP = 30  # not a multiple of max_stride=8 -> crop size really is computed from the instances
 MAX_STRIDE = 8
+EXPLICIT_CROP = 96  # chunk-reuse histories of class "explicit": user-given crop_hw / part_names / edges
+
+
+def _heads(model, facts=None):
+    """Head config of the model type; with `facts` the part names / edges are spelled out by the user."""
+    import copy
+
+    h = copy.deepcopy(HEADS[model])
+    if facts is not None:
+        for head in h[model].values():
+            if "part_names" in head:
+                head["part_names"] = list(facts["nodes"])
+            if "edges" in head:
+                head["edges"] = [list(e) for e in facts["edges"]]
+    return h
 
 
 def build_config(case, out, chunks, indir):
@@ -367,12 +403,15 @@ def build_config(case, out, chunks, indir):
     from sleap_nn.train import get_data_config, get_model_config, get_trainer_config
 
     labels = _labels_path(case["labels"])
+    explicit = bool(case.get("explicit", False))
     dc = get_data_config(
         train_labels_path=labels,
         val_labels_path=labels,
         data_pipeline_fw=case["fw"],
         np_chunks_path=chunks,
+        use_existing_chunks=bool(case.get("use_existing", False)),
         delete_chunks_after_training=case["delete"],
+        crop_hw=(EXPLICIT_CROP, EXPLICIT_CROP) if explicit else None,
         min_crop_size=MIN_CROP,
     )
     mc = get_model_config(
@@ -391,7 +430,7 @@ def build_config(case, out, chunks, indir):
                 "output_stride": 2,
             }
         },
-        head_configs=HEADS[case["model"]],
+        head_configs=_heads(case["model"], _labels_facts(labels) if explicit else None),
     )
     tc = get_trainer_config(
         batch_size=1,
@@ -533,25 +572,46 @@ _ENV_KEYS = ["WANDB_DIR", "WANDB_CACHE_DIR", "WANDB_CONFIG_DIR", "WANDB_DATA_DIR
 _SIGS = [signal.SIGINT, signal.SIGTERM] + ([signal.SIGUSR1] if hasattr(signal, "SIGUSR1") else [])
 
 
-def run_once(case, kill=None):
-    """Run ModelTrainer(cfg).train() under the monitor; returns a report dict (all facts the oracle needs)."""
+def run_once(case, kill=None, layout=None, keys=None):
+    """Run ModelTrainer(cfg).train() under the monitor; returns a report dict (all facts the oracle needs).
+
+    `layout` (chunk-reuse histories): directories that outlive this run - {"d", "out", "chunks", "roots"};
+    they are neither created fresh nor removed here.  `keys`: every key that must not be found (default: the
+    case's own key).
+    """
     import torch
     import wandb
     from omegaconf import OmegaConf
 
     _install_hook()
     mon = _MON
-    d = env.scratch_dir("c19")
-    out = os.path.join(d, "out")
+    d = layout["d"] if layout else env.scratch_dir("c19")
+    out = layout["out"] if layout else os.path.join(d, "out")
     indir = os.path.join(d, "in")
     tmpd = os.path.join(d, "tmp")
     home = os.path.join(d, "wandb-home")
     cwd = os.path.join(d, "cwd")  # working directory of the run: nothing may be written there either
     for x in (indir, tmpd, home, cwd):
-        os.makedirs(x)
+        os.makedirs(x, exist_ok=True)
     chunks = os.path.join(d, "chunks") if case["npp"] == "sep" else None
     roots = [out] + ([chunks] if chunks else []) + [cwd]
-    chunk_base = chunks or out
+    if layout:
+        chunks = layout["chunks"]
+        roots = list(layout["roots"]) + [cwd]
+    chunk_base = chunks or (layout["chunk_out"] if layout else out)
+    keys = list(keys) if keys else [case["key"]]
+    out_rel = os.path.relpath(out, d)
+
+    def _ckpt_sigs():
+        sigs = {}
+        for dp, _dn, fns in os.walk(out):
+            for fn in fns:
+                if fn.endswith(".ckpt"):
+                    st = os.stat(os.path.join(dp, fn))
+                    sigs[os.path.relpath(os.path.join(dp, fn), d)] = (st.st_size, st.st_mtime_ns, st.st_ino)
+        return sigs
+
+    prior_ckpts = _ckpt_sigs() if os.path.isdir(out) else {}  # checkpoints of earlier runs of a history
     rep = {"outcome": None, "exc": None, "exc_bucket": None, "tr_config": None, "dir": d}
 
     saved_env = {k: os.environ.get(k) for k in _ENV_KEYS}
@@ -598,7 +658,7 @@ def run_once(case, kill=None):
             finally:
                 mon.fit_span[1] = mon.n
 
-        mon.reset(roots, case["key"], kill, d)
+        mon.reset(roots, keys, kill, d)
         mon.main_ident = threading.get_ident()
         mon.hook_error = None
         t0 = time.time()
@@ -672,7 +732,7 @@ def run_once(case, kill=None):
                 rep["n_params"] = int(sum(p.numel() for p in tr.model.parameters()))
         ckpts = {}
         for rel in rep["files"]:
-            if rel.endswith(".ckpt"):
+            if rel.endswith(".ckpt") and rel.startswith(out_rel + "/"):  # this run's own output directory
                 p = os.path.join(d, rel)
                 try:
                     ck = torch.load(p, map_location="cpu", weights_only=False)
@@ -680,7 +740,7 @@ def run_once(case, kill=None):
                     ckpts[rel] = {"unreadable": f"{type(e).__name__}"}
                     continue
                 conf = ck.get("config") if isinstance(ck, dict) else None
-                info = {"has_config": conf is not None, "deep_key": _walk_has_key(ck, case["key"])}
+                info = {"has_config": conf is not None, "deep_key": any(_walk_has_key(ck, k) for k in keys)}
                 if conf is not None:
                     c = _norm(OmegaConf.to_container(conf, resolve=True)) if not isinstance(conf, dict) else _norm(conf)
                     info["api_key"] = _get(c, KEYPATH, "<absent>")
@@ -689,12 +749,20 @@ def run_once(case, kill=None):
                     mon.hits[rel] = {"first": "final", "last": "final", "how": "torch.load + recursive walk", "n": 1}
                 ckpts[rel] = info
         rep["ckpts"] = ckpts
+        now = _ckpt_sigs()
+        rep["own_ckpts"] = sorted(r for r, sg in now.items() if prior_ckpts.get(r) != sg)  # written by THIS run
         rep["chunk_state"] = {}
+        rep["npz"] = {}
+        rep["out_rel"] = out_rel
         for nm in ("train_chunks", "val_chunks"):
             p = os.path.join(chunk_base, nm)
             rep["chunk_state"][nm] = (
                 None if not os.path.isdir(p) else sum(len(f) for _, _, f in os.walk(p))
             )  # None = absent, else number of files
+            if os.path.isdir(p):
+                for fn in sorted(os.listdir(p)):
+                    st = os.stat(os.path.join(p, fn))
+                    rep["npz"][f"{nm}/{fn}"] = (st.st_size, st.st_mtime_ns, st.st_ino)
         rep["hits"] = {k: dict(v) for k, v in mon.hits.items()}
         rep["threads_left"] = len([t for t in threading.enumerate() if t not in threads_before and t.is_alive() and not t.daemon])
         try:
@@ -733,7 +801,8 @@ def run_once(case, kill=None):
             except Exception:  # noqa: BLE001
                 pass
         del tr
-        shutil.rmtree(d, ignore_errors=True)
+        if layout is None:
+            shutil.rmtree(d, ignore_errors=True)
 
 
 def _skeleton_nodes(conf):
@@ -791,8 +860,13 @@ def judge_key(res, case, rep):
         )
 
 
-def judge_artifacts(res, case, rep):
-    """Clauses (2) and (3) for the un-killed run."""
+def judge_artifacts(res, case, rep, reuse=False):
+    """Clauses (2) and (3) for the un-killed run.
+
+    reuse=True: the run re-used existing chunks (`use_existing_chunks`): the labels file is never opened, the
+    skeleton / max_height,max_width / crop size are read from the chunk directory's config.yaml and are NOT
+    written back into the configuration, so those computed fields are recorded as class labels, not judged.
+    """
     uw, ck, model = case["use_wandb"], case["save_ckpt"], case["model"]
     lab = _label(case)
     run = rep["outcome"]
@@ -838,15 +912,20 @@ def judge_artifacts(res, case, rep):
         n += 1
         facts = _labels_facts(rep["labels"])
         miss = []
-        if _skeleton_nodes(final) != facts["nodes"]:
+        if reuse:
+            if _skeleton_nodes(final) is None:
+                res.cls("reuse:final-config-without-skeletons")
+            if _get(final, "data_config.preprocessing.max_height") is None:
+                res.cls("reuse:final-config-without-max_hw")
+        elif _skeleton_nodes(final) != facts["nodes"]:
             miss.append(f"data_config.skeletons nodes {_skeleton_nodes(final)} != labels' {facts['nodes']}")
         tp = _get(final, "model_config.total_params")
         if rep.get("n_params") is not None and tp != rep["n_params"]:
             miss.append(f"model_config.total_params {tp!r} != {rep['n_params']} parameters of the trained model")
         mh, mw = _get(final, "data_config.preprocessing.max_height"), _get(final, "data_config.preprocessing.max_width")
-        if (mh, mw) != facts["hw"]:
+        if not reuse and (mh, mw) != facts["hw"]:
             miss.append(f"preprocessing.max_height/max_width {(mh, mw)} != image size {facts['hw']}")
-        if model == "centered_instance":
+        if model == "centered_instance" and not reuse:
             chw = _get(final, "data_config.preprocessing.crop_hw")
             ok = (
                 isinstance(chw, list)
@@ -867,7 +946,7 @@ def judge_artifacts(res, case, rep):
             res.fail(f"artifacts:training_config.yaml:computed-field:{fld}{sfx}", f"{m}; config={lab}")
     # (3d) checkpoints iff save_ckpt
     n += 1
-    names = {os.path.basename(r) for r in rep["files"] if r.endswith(".ckpt")}
+    names = {os.path.basename(r) for r in rep["own_ckpts"]}
     if ck:
         for want in ("best.ckpt", "last.ckpt"):
             if want not in names and run == "completed":
@@ -888,7 +967,7 @@ def judge_artifacts(res, case, rep):
             res.fail(f"artifacts:ckpt-config:api_key-altered:{fc}{sfx}", f"{rel}: embedded {KEYPATH}={info['api_key']!r}; config={lab}")
         if info["api_key"] == key and rel not in rep["hits"]:
             raise runner.HarnessError(f"scanner missed the key in {rel}")
-        if info["skeleton_nodes"] != _labels_facts(rep["labels"])["nodes"]:
+        if not reuse and info["skeleton_nodes"] != _labels_facts(rep["labels"])["nodes"]:
             res.fail(f"artifacts:ckpt-config:skeletons:{fc}{sfx}", f"{rel}: embedded skeleton nodes {info['skeleton_nodes']}; config={lab}")
     # (3f) chunk directories
     n += 1
@@ -974,6 +1053,127 @@ def evaluate(case):
 
 
 # ----------------------------------------------------------------------------------
+# chunk-reuse histories: run 1 creates and keeps chunks, run 2 (3) re-use them
+
+
+def _hlabel(case):
+    return (
+        f"{case['model']}|npp={case['npp']}|delete2={case['delete2']}|third={case['third']}|wandb={case['use_wandb']}"
+        f"|ckpt={case['save_ckpt']}|{case['form']}|{'explicit' if case['explicit'] else 'defaults'}"
+    )
+
+
+def _history_runs(case):
+    """The run cases of a history (run 1 creates + keeps, the others re-use), sharing one directory layout."""
+    shared = case["npp"] is None  # chunks live in save_ckpt_path: every run has to use the same directory
+    base = {
+        "model": case["model"], "fw": "torch_dataset_np_chunks", "npp": case["npp"], "use_wandb": case["use_wandb"],
+        "form": case["form"], "labels": case["labels"], "seed": case["seed"], "explicit": case["explicit"],
+    }
+    # with a shared directory run 1 writes no checkpoint, so that run 2's best.ckpt/last.ckpt are its own
+    runs = [dict(base, delete=False, use_existing=False, save_ckpt=case["save_ckpt"] and not shared, key=case["key"], out="out")]
+    runs.append(dict(base, delete=case["delete2"], use_existing=True, save_ckpt=case["save_ckpt"], key=case["key2"], out="out" if shared else "out2"))
+    if case["third"] and not case["delete2"]:
+        # chunks survived a re-using run: a third run re-uses them again and asks for their deletion
+        runs.append(dict(base, delete=True, use_existing=True, save_ckpt=False, key=case["key"], out="out" if shared else "out3"))
+    return runs
+
+
+def _run_history(case, upto=None, kill=None):
+    """Execute the runs of a history in ONE directory tree; returns the reports (kill applies to the last run)."""
+    runs = _history_runs(case)
+    if upto is not None:
+        runs = runs[: upto + 1]
+    d = env.scratch_dir("c19h")
+    try:
+        chunks = os.path.join(d, "chunks") if case["npp"] == "sep" else None
+        outs = sorted({os.path.join(d, r["out"]) for r in runs})
+        roots = outs + ([chunks] if chunks else [])
+        keys = sorted({case["key"], case["key2"]})
+        reps = []
+        for i, rc in enumerate(runs):
+            layout = {"d": d, "out": os.path.join(d, rc["out"]), "chunks": chunks, "roots": roots, "chunk_out": os.path.join(d, "out")}
+            rep = run_once(rc, kill=kill if i == len(runs) - 1 else None, layout=layout, keys=keys)
+            rep["kill"] = list(kill) if (kill and i == len(runs) - 1) else None
+            rep["case"] = rc
+            reps.append(rep)
+            if rep["outcome"] != "completed":
+                break
+        return reps
+    finally:
+        shutil.rmtree(d, ignore_errors=True)
+
+
+def evaluate_history(case):
+    res = Result()
+    res.nontrivial = bool(case["key"]) and bool(case["key2"])  # every history re-uses chunks with keys present
+    res.cls(
+        f"reuse|{case['model']}|npp={case['npp']}|delete2={int(case['delete2'])}|{case['form']}",
+        f"reuse|{'explicit' if case['explicit'] else 'defaults'}|{case['model']}",
+        f"reuse|wandb={int(case['use_wandb'])}|ckpt={int(case['save_ckpt'])}",
+        f"reuse|keys={'same' if case['key'] == case['key2'] else 'different'}",
+        f"reuse|runs={len(_history_runs(case))}",
+    )
+    n_evals = 0
+    reps = _run_history(case)
+    prev = None
+    for i, rep in enumerate(reps):
+        rc = rep["case"]
+        tmp = Result()
+        nb = rep["n_boundaries"]
+        n_evals += rep["scans"] + 1
+        judge_key(tmp, rc, rep)
+        n_evals += judge_artifacts(tmp, rc, rep, reuse=rc["use_existing"])
+        if rc["use_existing"]:
+            n_evals += 1
+            # "use existing chunks": the chunk files are read, never written again
+            rewritten = [l for l in rep["boundary_labels"] if l.startswith("open:") and "_chunks/" in l]
+            if rewritten:
+                tmp.fail(
+                    "chunks-rewritten:use_existing_chunks=True",
+                    f"run {i + 1} opened chunk files for writing: {rewritten[:3]}; history={_hlabel(case)}",
+                )
+            elif not rc["delete"] and rep["outcome"] == "completed" and prev is not None and rep["npz"] != prev["npz"]:
+                tmp.fail(
+                    "chunks-changed:use_existing_chunks=True",
+                    f"chunk files (size, mtime, inode) differ after run {i + 1}: {rep['npz']} vs {prev['npz']}; history={_hlabel(case)}",
+                )
+        for b, m in tmp.failures:
+            if ":raise:" in b:  # one bucket per raising frame and history class, not per config form / tracking
+                b = b.split(":cfg=")[0] + (":explicit" if case["explicit"] else ":defaults")
+            res.fail(f"reuse:run{i + 1}:{b}", f"{m} ; history={_hlabel(case)}")
+        for c in tmp.classes:
+            res.cls(c)
+        res.cls(f"reuse|run{i + 1}={rep['outcome']}", f"reuse|run{i + 1}-boundaries={nb}")
+        TIMING.append((f"reuse-run{i + 1}", round(rep["seconds"], 2), nb))
+        prev = rep
+    # ---- die inside a re-using run (run 2), unwind, scan both runs' directories
+    kills = case.get("kills") or []
+    if len(reps) >= 2 and reps[1]["outcome"] == "completed":
+        r2 = reps[1]
+        span = r2["fit_span"]
+        if kills == "fit-all":
+            kills = [[k, fl, "abs"] for k in range(span[0], span[1]) for fl in ("base", "kbd")] if span and span[1] else []
+        for kl in kills:
+            k_raw, flavour, region = kl[0], kl[1], (kl[2] if len(kl) > 2 else "any")
+            if region == "abs":
+                k = int(k_raw)
+            elif region == "fit" and span and span[1] is not None and span[1] > span[0]:
+                k = span[0] + int(k_raw) % (span[1] - span[0])
+            else:
+                k = int(k_raw) % r2["n_boundaries"]
+            rb = _run_history(case, upto=1, kill=(k, flavour))[-1]
+            n_evals += rb["scans"] + 1
+            res.cls("reuse|kill:not-reached" if rb["killed_at"] is None else f"reuse|kill:{flavour}")
+            tmp = Result()
+            judge_key(tmp, rb["case"], rb)
+            for b, m in tmp.failures:
+                res.fail(f"reuse:run2:{b}", f"{m} ; history={_hlabel(case)}")
+    res.n_evals = max(1, n_evals)
+    return res
+
+
+# ----------------------------------------------------------------------------------
 # generators
 
 
@@ -1047,6 +1247,79 @@ def strategy():
     return case()
 
 
+HGRID = [
+    (m, npp, d2, form, uw, ck, ex)
+    for m in MODELS
+    for npp in (None, "sep")
+    for d2 in (True, False)
+    for form in ("structured", "plain")
+    for uw in (False, True)
+    for ck in (False, True)
+    for ex in (True, False)
+]
+
+
+def _hcase(cfg, key, key2, seed, third, kills):
+    m, npp, d2, form, uw, ck, ex = cfg
+    return {
+        "model": m, "npp": npp, "delete2": d2, "form": form, "use_wandb": uw, "save_ckpt": ck, "explicit": ex,
+        "third": bool(third), "labels": "one" if m == "single_instance" else "asset",
+        "key": key, "key2": key2, "seed": seed, "kills": kills,
+    }
+
+
+def history_cases(tier):
+    if tier == "quick":
+        # eight fixed histories: every model type twice, both np_chunks_path variants, deletion requested by
+        # run 2 in six, two three-run histories, both config forms; five of class "explicit" (crop_hw / part_names /
+        # edges given by the user, as in the repo's own reuse test) and three of class "defaults"
+        picks = [
+            (("centroid", "sep", True, "structured", False, True, True), False, False),
+            (("centered_instance", None, True, "plain", True, False, True), True, False),
+            (("single_instance", None, False, "structured", False, True, True), False, True),
+            (("single_instance", "sep", True, "plain", False, False, True), True, False),
+            (("bottomup", "sep", True, "plain", False, False, True), False, False),
+            (("centered_instance", "sep", True, "structured", False, False, False), False, False),
+            (("centroid", None, True, "plain", False, True, False), True, False),
+            (("bottomup", None, False, "structured", True, False, False), False, True),
+        ]
+        for i, (cfg, diffkeys, third) in enumerate(picks):
+            k1 = _det_key(10_000 + i)
+            yield _hcase(cfg, k1, _det_key(20_000 + i) if diffkeys else k1, 2000 + i, third, [])
+    else:
+        # all (model x npp x delete2 x form) histories, for both classes; use_wandb / save_ckpt cycle jointly
+        i = 0
+        for m in MODELS:
+            for npp in (None, "sep"):
+                for d2 in (True, False):
+                    for form in ("structured", "plain"):
+                        for ex in (True, False):
+                            uw, ck = [(False, True), (True, False), (True, True), (False, False)][i % 4]
+                            k1 = _det_key(10_000 + i)
+                            yield _hcase((m, npp, d2, form, uw, ck, ex), k1, _det_key(20_000 + i) if i % 2 else k1, 2000 + i, not d2, "fit-all")
+                            i += 1
+
+
+def history_strategy():
+    from hypothesis import strategies as st
+
+    @st.composite
+    def case(draw):
+        cfg = draw(st.sampled_from(HGRID))  # ONE joint choice
+        k1 = "c1" + draw(st.text(alphabet="0123456789abcdef", min_size=38, max_size=38))
+        same = draw(st.booleans())
+        k2 = k1 if same else "c2" + draw(st.text(alphabet="0123456789abcdef", min_size=38, max_size=38))
+        seed = draw(st.integers(0, 2**16))
+        third = draw(st.booleans())
+        kinds = [("base", "fit"), ("kbd", "fit"), ("base", "any"), ("kbd", "any")]
+        kills = draw(
+            st.lists(st.tuples(st.integers(0, 999), st.sampled_from(kinds)).map(lambda t: [t[0], t[1][0], t[1][1]]), min_size=0, max_size=1)
+        )
+        return _hcase(cfg, k1, k2, seed, third, kills)
+
+    return case()
+
+
 def _setup():
     _install_hook()
 
@@ -1066,9 +1339,27 @@ def parts(tier):
             name="sampled",
             evaluate=evaluate,
             strategy=strategy,
-            budget={"quick": 40, "thorough": 1600},
+            budget={"quick": 34, "thorough": 1600},
             shards={"quick": 1, "thorough": 16},
-            min_nontrivial={"quick": 12, "thorough": 300},
+            min_nontrivial={"quick": 10, "thorough": 300},
+            setup=_setup,
+        ),
+        Part(
+            name="chunk-reuse",
+            evaluate=evaluate_history,
+            enumerate=history_cases,
+            shards={"quick": 1, "thorough": 16},
+            exhaustive={"quick": False, "thorough": True},
+            min_nontrivial={"quick": 3, "thorough": 40},
+            setup=_setup,
+        ),
+        Part(
+            name="chunk-reuse-sampled",
+            evaluate=evaluate_history,
+            strategy=history_strategy,
+            budget={"quick": 2, "thorough": 320},
+            shards={"quick": 1, "thorough": 16},
+            min_nontrivial={"quick": 1, "thorough": 60},
             setup=_setup,
         ),
     ]
@@ -1077,7 +1368,9 @@ def parts(tier):
 def extra_coverage():
     out = {
         "exhaustive_domain": "thorough: all 192 configurations (4 model types x 6 fw/chunk variants x use_wandb x "
-        "save_ckpt x structured/plain) x every write boundary x {SimulatedKill, KeyboardInterrupt}",
+        "save_ckpt x structured/plain) x every write boundary x {SimulatedKill, KeyboardInterrupt}; chunk-reuse: all "
+        "128 histories (4 model types x np_chunks_path {None, sep} x delete {T,F} x structured/plain x "
+        "{explicit, defaults}) x every boundary inside run 2's Trainer.fit x 2 kill flavours",
     }
     if TIMING:
         secs = [t[1] for t in TIMING]
